@@ -144,6 +144,72 @@ fn bits<I: Iterator<Item = bool>>(it: I) -> String {
     it.map(|b| if b { '1' } else { '0' }).collect()
 }
 
+/// C18 with a history: other schemas with the SAME number of definitions (definitions reversed;
+/// the implements-lists of the objects rotated; the member lists of the unions rotated; one object
+/// renamed) take turns in ONE variable (same address) and are queried before the real schema is
+/// put back into that variable and queried for the answers that count: a helper must answer from
+/// the schema it is given, not from whatever it remembers about an earlier one.
+pub fn run_ext_with_history(schema: &s::Document, depth: usize) -> Vec<String> {
+    let mut variants: Vec<s::Document> = vec![];
+    let mut reversed = schema.clone();
+    reversed.definitions.reverse();
+    variants.push(reversed);
+    {
+        let mut v = schema.clone();
+        let lists: Vec<Vec<String>> = v.definitions.iter().filter_map(|d| match d {
+            s::Definition::TypeDefinition(s::TypeDefinition::Object(o)) => Some(o.implements_interfaces.clone()),
+            _ => None,
+        }).collect();
+        let mut k = 0usize;
+        for d in v.definitions.iter_mut() {
+            if let s::Definition::TypeDefinition(s::TypeDefinition::Object(o)) = d {
+                k += 1;
+                o.implements_interfaces = lists[k % lists.len()].clone();
+            }
+        }
+        variants.push(v);
+    }
+    {
+        let mut v = schema.clone();
+        let lists: Vec<Vec<String>> = v.definitions.iter().filter_map(|d| match d {
+            s::Definition::TypeDefinition(s::TypeDefinition::Union(u)) => Some(u.types.clone()),
+            _ => None,
+        }).collect();
+        let mut k = 0usize;
+        for d in v.definitions.iter_mut() {
+            if let s::Definition::TypeDefinition(s::TypeDefinition::Union(u)) = d {
+                k += 1;
+                u.types = lists[k % lists.len()].clone();
+                let r = 1.min(u.types.len());
+                u.types.rotate_left(r);
+                if u.types.len() > 1 {
+                    u.types.pop();
+                }
+            }
+        }
+        variants.push(v);
+    }
+    {
+        let mut v = schema.clone();
+        for d in v.definitions.iter_mut().rev() {
+            if let s::Definition::TypeDefinition(s::TypeDefinition::Object(o)) = d {
+                o.name = format!("{}Zz", o.name);
+                break;
+            }
+        }
+        variants.push(v);
+    }
+    let mut slot: s::Document = schema.clone();
+    for v in variants {
+        slot = v;
+        let _ = std::panic::catch_unwind(std::panic::AssertUnwindSafe(|| run_ext(&slot, 1)));
+        slot = schema.clone();
+        let _ = std::panic::catch_unwind(std::panic::AssertUnwindSafe(|| run_ext(&slot, 1)));
+    }
+    slot = schema.clone();
+    run_ext(&slot, depth)
+}
+
 pub fn run_ext(schema: &s::Document, depth: usize) -> Vec<String> {
     let mut out = vec![];
     let tdefs: Vec<&s::TypeDefinition> = schema
